@@ -524,7 +524,7 @@ S5 = '''## 5. Bounds and what lies outside them (collected)
 | tier | per property | whole set |
 |------|--------------|-----------|
 | quick | 10 s (C06, C17, C19) · 25–60 s (C04, C14, C05, C10, C13) · 1.5–2 min (C02, C08, C12, C18) · 3–5 min (C03, C07, C15, C11, C01) on an idle machine (measured end of session 3, VERIF_SEED=1) | ≈ 30 min serial |
-| thorough | same harnesses with the full job lists (all Tyrving chunks, all factor columns, 3 × 3 high-jump shapes, all rows/ages of C14/C15, all C18 triples). End-to-end runs of session 3 (on a machine shared with two other runs): C17 19 s, C04 43 s, C13 82 s, C05 145 s, C18 245 s, C19 277 s, C10 301 s, C14 397 s, C12 743 s - all exit 0; C06 505 s ended exit 2 once (one `solver unknown` under load; the last solver attempt now gets three times the nominal budget) after 525 s exit 0 in session 2. C02 (4 496 shape × call jobs since the engine repair, 154 618 paths after 2 457 s, no violation, no inconclusive job so far) was stopped at 62 % to free the machine; C08 thorough (8 185 jobs since the engine repair) was still running after 40 min on an otherwise idle machine when the session's time ran out (no violation or inconclusive job printed until then); C03, C15, C07, C11, C01 were not run end to end in session 3 (C11 / C01 are hours of cvc5 time: every Tyrving chunk, every factor column) | hours, run with `vp run` |
+| thorough | same harnesses with the full job lists (all Tyrving chunks, all factor columns, 3 × 3 high-jump shapes, all rows/ages of C14/C15, all C18 triples). End-to-end runs of session 3 (on a machine shared with two other runs): C17 19 s, C04 43 s, C13 82 s, C05 145 s, C18 245 s, C19 277 s, C10 301 s, C14 397 s, C12 743 s - all exit 0; C06 505 s ended exit 2 once (one `solver unknown` under load; the last solver attempt now gets three times the nominal budget) after 525 s exit 0 in session 2. C02 (4 496 shape × call jobs since the engine repair, 154 618 paths after 2 457 s, no violation, no inconclusive job so far) was stopped at 62 % to free the machine; C08 thorough (8 185 jobs since the engine repair) was still running after 40 min on an otherwise idle machine when the session's time ran out (no violation or inconclusive job printed until then; a second, seven-minute measurement gave 1 800 jobs in 411 s with the three-athlete, three-height shapes still to come, i.e. of the order of two hours in all); C03, C15, C07, C11, C01 were not run end to end in session 3 (C11 / C01 are hours of cvc5 time: every Tyrving chunk, every factor column) | hours, run with `vp run` |
 
 A solver timeout, `unknown`, budget overrun or unsupported operation is exit 2.
 Scratch files (SMT-LIB text for cvc5) are `tempfile`s removed after each query;
